@@ -3,7 +3,8 @@ package main
 // mal=3: HCL files that the language does NOT evaluate — a `locals` block (used by the body or not) or an attribute
 // with an undefined local, a local of a LATER block or of the same block, an unknown function, a call that fails, a
 // missing member — built from the syntax tree of a valid spelling.  "Conveniences are fully evaluated before
-// conversion": the HCL front-end must refuse the file as a whole, wherever the failing piece sits.
+// conversion": the HCL front-end must refuse the file as a whole, wherever the failing piece sits.  `pre=<name>`: the
+// undefined local is one that ANOTHER file, parsed just before in the same process, defines: files are independent.
 
 import (
 	"fmt"
@@ -32,17 +33,37 @@ func brokenExprs() []hx {
 
 // breakFile returns the lb/hb encodings of the spelling (lb, hb) with one failing piece added; "" when the shape
 // cannot be applied to this file
-func breakFile(r *rand.Rand, lb, hb string) (string, string, string) {
+func breakFile(r *rand.Rand, lb, hb string) (string, string, string, string) {
 	l, err := parseHX(lb)
 	if err != nil || l.k != 'l' {
-		return "", "", ""
+		return "", "", "", ""
 	}
 	body, err := parseHX(hb)
 	if err != nil {
-		return "", "", ""
+		return "", "", "", ""
 	}
+	pre := ""
 	exprs := brokenExprs()
 	bad := exprs[r.Intn(len(exprs))]
+	if r.Intn(4) == 0 {
+		// a local that OTHER files of this run define (the printer numbers its locals s1, m2, l3 …) but this one does not:
+		// what an earlier file defined must not be visible here
+		defined := map[string]bool{}
+		for _, blk := range l.list {
+			for _, k := range blk.keys {
+				defined[k] = true
+			}
+		}
+		pool := []string{"s1", "s2", "s3", "m1", "m2", "l1", "l2", "n1", "n2", "o1", "o2", "t1", "d2", "d3", "b1"}
+		r.Shuffle(len(pool), func(i, j int) { pool[i], pool[j] = pool[j], pool[i] })
+		for _, name := range pool {
+			if !defined[name] {
+				bad = hx{"", encLocal(name)}
+				pre = name
+				break
+			}
+		}
+	}
 	badNode, err := parseHX(bad.enc)
 	if err != nil {
 		panic("broken.go: " + err.Error())
@@ -61,7 +82,7 @@ func breakFile(r *rand.Rand, lb, hb string) (string, string, string) {
 	case 1:
 		// one more definition inside an existing block
 		if len(l.list) == 0 {
-			return "", "", ""
+			return "", "", "", ""
 		}
 		kind = "in-block"
 		blk := l.list[r.Intn(len(l.list))]
@@ -86,7 +107,7 @@ func breakFile(r *rand.Rand, lb, hb string) (string, string, string) {
 			steps = body.get("call")
 		}
 		if steps == nil || len(steps.list) == 0 || steps.list[0].k != 'm' {
-			return "", "", ""
+			return "", "", "", ""
 		}
 		st := steps.list[0]
 		done := false
@@ -101,7 +122,10 @@ func breakFile(r *rand.Rand, lb, hb string) (string, string, string) {
 			st.list = append(st.list, badNode)
 		}
 	}
-	return l.enc(), body.enc(), kind
+	if kind == "own-block" || kind == "later-block" {
+		pre = ""
+	}
+	return l.enc(), body.enc(), kind, pre
 }
 
 func brokenLine(r *rand.Rand, sx int64, d *Node) string {
@@ -114,8 +138,12 @@ func brokenLine(r *rand.Rand, sx int64, d *Node) string {
 	}
 	hf := printHCL(d, rand.New(rand.NewSource(sx)), fancy)
 	for try := 0; try < 8; try++ {
-		lb, hb, kind := breakFile(r, hf.lb, hf.hb)
+		lb, hb, kind, pre := breakFile(r, hf.lb, hf.hb)
 		if kind != "" {
+			if pre != "" {
+				// pre=<name>: the harness first parses another (valid) HCL file that defines this local
+				return fmt.Sprintf("sx=%d mal=3 hx=1 bk=%s-foreign pre=%s d=%s lb=%s hb=%s", sx, kind, pre, encodeTree(d), lb, hb)
+			}
 			return fmt.Sprintf("sx=%d mal=3 hx=1 bk=%s d=%s lb=%s hb=%s", sx, kind, encodeTree(d), lb, hb)
 		}
 	}
